@@ -39,12 +39,16 @@ Qed.
 
 Lemma remove_nth_app {A} (a : list A) x b : remove_nth (length a) (a ++ x :: b) = a ++ b.
 Proof.
-  unfold remove_nth. induction a as [|y a IH]; simpl; auto. now rewrite IH.
+  unfold remove_nth. induction a as [|y a IH]; [reflexivity|].
+  change (y :: firstn (length a) (a ++ x :: b) ++ skipn (S (length a)) (a ++ x :: b) = y :: a ++ b).
+  now rewrite IH.
 Qed.
 
 Lemma set_nth_app {A} (a : list A) x y b : set_nth (length a) y (a ++ x :: b) = a ++ y :: b.
 Proof.
-  unfold set_nth. induction a as [|z a IH]; simpl; auto. now rewrite IH.
+  unfold set_nth. induction a as [|z a IH]; [reflexivity|].
+  change (z :: firstn (length a) (a ++ x :: b) ++ match skipn (length a) (a ++ x :: b) with [] => [] | _ :: r => y :: r end = z :: a ++ y :: b).
+  now rewrite IH.
 Qed.
 
 Lemma nss_unfold n c sl :
@@ -54,7 +58,7 @@ Proof.
   simpl. f_equal. induction sl as [|[[e ch]|] r IH]; simpl; auto. now rewrite IH.
 Qed.
 
-Lemma forallb_kids_app {B} (f : einfo * utree -> bool) (a b : list slot) :
+Lemma forallb_kids_app (f : einfo * utree -> bool) (a b : list slot) :
   forallb f (kids_of (a ++ b)) = forallb f (kids_of a) && forallb f (kids_of b).
 Proof. now rewrite kids_of_app, forallb_app. Qed.
 
@@ -92,7 +96,7 @@ Proof.
 Qed.
 Lemma reparent_degree t : wf_sub t = true -> degree (reparent t) = degree t.
 Proof.
-  destruct t as [n c sl]. unfold degree. simpl. rewrite wf_sub_unfold, andb_true_iff.
+  destruct t as [n c sl]. rewrite wf_sub_unfold, andb_true_iff. unfold degree. simpl uslots. simpl reparent. simpl uslots.
   intros [H1 _]. apply Nat.eqb_eq in H1. rewrite app_length, length_drop_up by lia. simpl.
   assert (1 <= length sl) by (rewrite length_slots; lia). lia.
 Qed.
@@ -114,10 +118,10 @@ Proof.
     + destruct (IH _ H) as [A [ch [B [-> [-> [H1 [H2 H3]]]]]]].
       exists (Some (e0, c0) :: A), ch, B. simpl. repeat split; auto; try lia.
       intros e' c' [Hx|Hx]; [inversion Hx; subst; auto | eauto].
-    + inversion H; subst. exists [], c0, r. simpl. repeat split; auto; try lia; try congruence. tauto.
-    + inversion H; subst. exists [], c0, r. simpl. repeat split; auto; try lia; try congruence. tauto.
-    + inversion H; subst. exists [], c0, r. simpl. repeat split; auto; try lia; try congruence. tauto.
-    + inversion H; subst. exists [], c0, r. simpl. repeat split; auto; try lia; try congruence. tauto.
+    + inversion H; subst. exists [], c0, r. simpl. repeat split; auto; try lia; try congruence; try tauto.
+    + inversion H; subst. exists [], c0, r. simpl. repeat split; auto; try lia; try congruence; try tauto.
+    + inversion H; subst. exists [], c0, r. simpl. repeat split; auto; try lia; try congruence; try tauto.
+    + inversion H; subst. exists [], c0, r. simpl. repeat split; auto; try lia; try congruence; try tauto.
   - destruct (IH _ H) as [A [ch [B [-> [-> [H1 [H2 H3]]]]]]].
     exists (None :: A), ch, B. simpl. repeat split; auto; try lia.
     intros e' c' [Hx|Hx]; [discriminate | eauto].
@@ -193,7 +197,7 @@ Section Agg.
   Proof.
     intros H. rewrite fD_aggD, fP_aggP, old_filtered, H.
     assert (P : Permutation (contribs w KA ++ ([], []) :: contribs w KB) (([], []) :: contribs w (KA ++ KB))).
-    { unfold contribs at 4. rewrite map_app. fold (contribs w KA). fold (contribs w KB). perm. }
+    { unfold contribs. rewrite map_app. perm. }
     split.
     - rewrite <- (aggD_nil (contribs w (KA ++ KB))). apply deq_perm, aggD_perm. now symmetry.
     - rewrite <- (aggP_nil (contribs w (KA ++ KB))). apply dists_equiv_perm, aggP_perm. now symmetry.
